@@ -17,6 +17,7 @@ import (
 	"os"
 	"sort"
 	"strings"
+	"sync"
 	"testing"
 	"time"
 
@@ -45,6 +46,187 @@ type pgState struct {
 	issued   []string            // every raw cursor the server has issued in this case
 	keys     map[string][]string // kind -> keys currently registered (generator's view)
 	psize    int
+	// scripted ("foreign") server: when a kind has a script, its list method is answered from the
+	// script by a receiving middleware instead of by the SDK's handler
+	scriptMu sync.Mutex
+	script   map[string]*pgScript
+}
+
+// pgScript is a foreign server's behaviour for one list method: a table from the cursor received to
+// the answer (a page, possibly empty, with any next cursor; or an error). An unknown cursor is
+// answered with invalid params.
+type pgScript struct {
+	order []string
+	ents  map[string]*pgScriptEnt
+}
+
+type pgSItem struct {
+	k, v string
+	bad  bool // tools only: carries an invalid x-mcp-header annotation (ListTools drops such tools)
+}
+
+type pgScriptEnt struct {
+	err   bool
+	items []pgSItem
+	next  string
+}
+
+var pgMethodKind = map[string]string{
+	"tools/list": "tools", "prompts/list": "prompts", "resources/list": "resources", "resources/templates/list": "templates",
+}
+
+func (st *pgState) getScript(kind string) *pgScript {
+	st.scriptMu.Lock()
+	defer st.scriptMu.Unlock()
+	return st.script[kind]
+}
+
+func (st *pgState) setScript(kind string, sc *pgScript) {
+	st.scriptMu.Lock()
+	defer st.scriptMu.Unlock()
+	if sc == nil {
+		delete(st.script, kind)
+	} else {
+		st.script[kind] = sc
+	}
+}
+
+// invalid x-mcp-header annotations (validateParamHeaderAnnotations rejects each of them) and valid ones
+var pgBadSchemas = []string{
+	`{"type":"object","properties":{"p":{"type":"array","x-mcp-header":"X-P"}}}`,
+	`{"type":"object","properties":{"p":{"type":"string","x-mcp-header":""}}}`,
+	`{"type":"object","properties":{"p":{"type":"string","x-mcp-header":"bad name"}}}`,
+	`{"type":"object","properties":{"p":{"type":"string","x-mcp-header":"X-P"},"q":{"type":"integer","x-mcp-header":"x-p"}}}`,
+	`{"type":"object","properties":{"o":{"type":"object","properties":{"p":{"type":"number","x-mcp-header":"X-P"}}}}}`,
+	`{"type":"object","properties":{"p":{"type":"string","x-mcp-header":7}}}`,
+}
+var pgGoodSchemas = []string{
+	`{"type":"object"}`,
+	`{"type":"object","properties":{"p":{"type":"string"}}}`,
+	`{"type":"object","properties":{"p":{"type":"string","x-mcp-header":"X-P"}}}`,
+	`{"type":"object","properties":{"o":{"type":"object","properties":{"p":{"type":"boolean","x-mcp-header":"X-Flag"}}},"q":{"type":"integer","x-mcp-header":"X-Q"}}}`,
+}
+
+func pgPick(l []string, k string) string {
+	h := 0
+	for i := 0; i < len(k); i++ {
+		h = h*31 + int(k[i])
+	}
+	if h < 0 {
+		h = -h
+	}
+	return l[h%len(l)]
+}
+
+// answer plays the foreign server for one list request.
+func (sc *pgScript) answer(kind string, req Request) (Result, error) {
+	cur := ""
+	if lp, ok := req.GetParams().(cursorParams); ok && !lp.isNil() {
+		if cp := lp.cursorPtr(); cp != nil {
+			cur = *cp
+		}
+	}
+	e := sc.ents[cur]
+	if e == nil || e.err {
+		return nil, &jsonrpc.Error{Code: jsonrpc.CodeInvalidParams, Message: "scripted: unknown cursor"}
+	}
+	switch kind {
+	case "tools":
+		r := &ListToolsResult{Tools: []*Tool{}, NextCursor: e.next}
+		for _, it := range e.items {
+			schema := pgPick(pgGoodSchemas, it.k)
+			if it.bad {
+				schema = pgPick(pgBadSchemas, it.k)
+			}
+			r.Tools = append(r.Tools, &Tool{Name: it.k, Description: it.v, InputSchema: json.RawMessage(schema)})
+		}
+		return r, nil
+	case "prompts":
+		r := &ListPromptsResult{Prompts: []*Prompt{}, NextCursor: e.next}
+		for _, it := range e.items {
+			r.Prompts = append(r.Prompts, &Prompt{Name: it.k, Description: it.v})
+		}
+		return r, nil
+	case "resources":
+		r := &ListResourcesResult{Resources: []*Resource{}, NextCursor: e.next}
+		for _, it := range e.items {
+			r.Resources = append(r.Resources, &Resource{URI: it.k, Name: it.v})
+		}
+		return r, nil
+	default:
+		r := &ListResourceTemplatesResult{ResourceTemplates: []*ResourceTemplate{}, NextCursor: e.next}
+		for _, it := range e.items {
+			r.ResourceTemplates = append(r.ResourceTemplates, &ResourceTemplate{URITemplate: it.k, Name: it.v})
+		}
+		return r, nil
+	}
+}
+
+func pgScriptTok(raw string) string {
+	if raw == "" {
+		return "-"
+	}
+	return "x" + hxs(raw)
+}
+
+// pgParseScript reads the entries `<cur>=<items>=<next>` / `<cur>=!` (cur, next: `-` or x<hex>;
+// items: comma-separated <hexkey>:<hexvalue>[!]) and returns the script with the canonical op
+// tokens (cursors as they survive JSON).
+func pgParseScript(kind string, toks []string) (*pgScript, []string) {
+	sc := &pgScript{ents: map[string]*pgScriptEnt{}}
+	var canon []string
+	for _, t := range toks {
+		f := strings.Split(t, "=")
+		if len(f) < 2 {
+			continue
+		}
+		cur := pgEffective(pgRawOf(f[0]))
+		if _, dup := sc.ents[cur]; dup {
+			continue
+		}
+		e := &pgScriptEnt{}
+		if f[1] == "!" || len(f) < 3 {
+			e.err = true
+			canon = append(canon, pgScriptTok(cur)+"=!")
+		} else {
+			var its []string
+			if f[1] != "" {
+				for _, w := range strings.Split(f[1], ",") {
+					bad := strings.HasSuffix(w, "!")
+					kv := strings.SplitN(strings.TrimSuffix(w, "!"), ":", 2)
+					if len(kv) != 2 {
+						continue
+					}
+					kb, _ := hex.DecodeString(kv[0])
+					vb, _ := hex.DecodeString(kv[1])
+					it := pgSItem{k: string(kb), v: string(vb), bad: bad && kind == "tools"}
+					e.items = append(e.items, it)
+					w2 := hxs(it.k) + ":" + hxs(it.v)
+					if it.bad {
+						w2 += "!"
+					}
+					its = append(its, w2)
+				}
+			}
+			e.next = pgEffective(pgRawOf(f[2]))
+			canon = append(canon, pgScriptTok(cur)+"="+strings.Join(its, ",")+"="+pgScriptTok(e.next))
+		}
+		sc.order = append(sc.order, cur)
+		sc.ents[cur] = e
+	}
+	return sc, canon
+}
+
+// pgCurOf classifies a cursor for the op line / observation: for the SDK server with the
+// implementation's own decodeCursor; for a scripted server the cursor is its own name.
+func pgCurOf(st *pgState, kind, raw string) string {
+	if st != nil && st.getScript(kind) != nil {
+		if raw == "" {
+			return "-"
+		}
+		return "k" + hxs(pgEffective(raw))
+	}
+	return pgCurTok(raw)
 }
 
 func (st *pgState) close() {
@@ -82,7 +264,7 @@ func pgUID(kind, key string) string {
 }
 
 func pgNewServer(psize int, version string) (*pgState, error) {
-	st := &pgState{iters: map[string]*pgIter{}, lastNext: map[string]string{}, keys: map[string][]string{}, psize: psize}
+	st := &pgState{iters: map[string]*pgIter{}, lastNext: map[string]string{}, keys: map[string][]string{}, psize: psize, script: map[string]*pgScript{}}
 	st.srv = NewServer(&Implementation{Name: "verif", Version: "1"}, &ServerOptions{PageSize: psize})
 	// A panic in a method handler would take the whole harness process down: turn it into an answer.
 	st.srv.AddReceivingMiddleware(func(next MethodHandler) MethodHandler {
@@ -92,6 +274,17 @@ func pgNewServer(psize int, version string) (*pgState, error) {
 					res, err = nil, &jsonrpc.Error{Code: pgPanicCode, Message: fmt.Sprintf("verif-panic: %v", r)}
 				}
 			}()
+			return next(ctx, method, req)
+		}
+	})
+	// The foreign peer: a kind with a script is answered from the script.
+	st.srv.AddReceivingMiddleware(func(next MethodHandler) MethodHandler {
+		return func(ctx context.Context, method string, req Request) (Result, error) {
+			if kind := pgMethodKind[method]; kind != "" {
+				if sc := st.getScript(kind); sc != nil {
+					return sc.answer(kind, req)
+				}
+			}
 			return next(ctx, method, req)
 		}
 	})
@@ -167,13 +360,13 @@ func pgRawTok(raw string) string {
 	return "x" + hxs(raw)
 }
 
-func pgPageObs(kind string, items []pgItem, next string) string {
+func pgPageObs(st *pgState, kind string, items []pgItem, next string) string {
 	var b strings.Builder
 	b.WriteString("page")
 	for _, it := range items {
 		b.WriteString(" " + hxs(it.k) + ":" + hxs(it.v))
 	}
-	b.WriteString(" next=" + pgCurTok(next))
+	b.WriteString(" next=" + pgCurOf(st, kind, next))
 	return b.String()
 }
 
@@ -313,6 +506,18 @@ func pgUnhex(s string) string {
 	return string(b)
 }
 
+// pgRawField picks the raw-cursor token of a list op: `list kind raw`, `list kind cur raw` or
+// `list kind cur raw follow` (canonical forms are re-derived from the raw cursor on replay); `@`
+// stands for the NextCursor of the previous answer for the kind.
+func pgRawField(toks []string) string {
+	for i := len(toks) - 1; i >= 2; i-- {
+		if toks[i] == "-" || toks[i] == "@" || strings.HasPrefix(toks[i], "x") {
+			return toks[i]
+		}
+	}
+	return "-"
+}
+
 func pgRawOf(tok string) string {
 	if tok == "-" {
 		return ""
@@ -381,10 +586,25 @@ func pgApply(stp **pgState, toks []string) (opline, obs string, tags []string) {
 		return opline, "ok", []string{"remove", "remove-" + kind}
 	case "list":
 		kind := toks[1]
-		raw := pgRawOf(toks[len(toks)-1])
-		cur := pgCurTok(raw)
+		raw := pgRawOf(pgRawField(toks))
+		if pgRawField(toks) == "@" { // hand-written corpus: "the cursor of the previous answer"
+			raw = st.lastNext[kind]
+		}
+		cur := pgCurOf(st, kind, raw)
 		opline = fmt.Sprintf("list %s %s %s", kind, cur, pgRawTok(raw))
 		tags = []string{"list", "list-" + kind, "cur-" + cur[:1]}
+		if raw != "" && raw == st.lastNext[kind] {
+			// following the cursor of the previous answer for this kind
+			opline += " follow"
+			tags = append(tags, "follow")
+		}
+		scripted := st.getScript(kind) != nil
+		if scripted {
+			tags = append(tags, "scripted")
+		}
+		if len(raw) > 256 {
+			tags = append(tags, "cur-long")
+		}
 		items, next, err := pgList(st, kind, raw)
 		if err != nil {
 			st.lastNext[kind] = ""
@@ -400,14 +620,50 @@ func pgApply(stp **pgState, toks []string) (opline, obs string, tags []string) {
 		}
 		if len(items) == 0 {
 			tags = append(tags, "page-empty")
+			if next != "" {
+				tags = append(tags, "page-empty-more")
+			}
 		}
-		return opline, pgPageObs(kind, items, next), tags
+		return opline, pgPageObs(st, kind, items, next), tags
 	case "tbegin", "tend":
 		return opline, "ok", []string{toks[0]}
+	case "script":
+		kind := toks[1]
+		sc, canon := pgParseScript(kind, toks[2:])
+		st.setScript(kind, sc)
+		st.lastNext[kind] = ""
+		tags = []string{"script", "script-" + kind}
+		for _, c := range sc.order {
+			e := sc.ents[c]
+			switch {
+			case e.err:
+				tags = append(tags, "script-error-entry")
+			case len(e.items) == 0 && e.next != "":
+				tags = append(tags, "script-empty-page-with-cursor")
+			case len(e.items) == 0:
+				tags = append(tags, "script-empty-last-page")
+			}
+			nbad := 0
+			for _, it := range e.items {
+				if it.bad {
+					nbad++
+				}
+			}
+			if nbad > 0 && nbad == len(e.items) && e.next != "" {
+				tags = append(tags, "script-all-filtered-page-with-cursor")
+			} else if nbad > 0 {
+				tags = append(tags, "script-filtered-tool")
+			}
+		}
+		return strings.Join(append([]string{"script", kind}, canon...), " "), "ok", tags
+	case "unscript":
+		st.setScript(toks[1], nil)
+		st.lastNext[toks[1]] = ""
+		return opline, "ok", []string{"unscript"}
 	case "iopen":
 		kind := toks[1]
 		raw := pgRawOf(toks[len(toks)-1])
-		cur := pgCurTok(raw)
+		cur := pgCurOf(st, kind, raw)
 		opline = fmt.Sprintf("iopen %s %s %s", kind, cur, pgRawTok(raw))
 		if old := st.iters[kind]; old != nil {
 			old.stop()
@@ -439,7 +695,11 @@ func pgApply(stp **pgState, toks []string) (opline, obs string, tags []string) {
 			b.WriteString(" " + hxs(x.k) + ":" + hxs(x.v))
 		}
 		b.WriteString(" " + end)
-		return opline, b.String(), []string{"ipull", "ipull-" + strings.Fields(end)[0]}
+		tags = []string{"ipull", "ipull-" + strings.Fields(end)[0]}
+		if st.getScript(kind) != nil {
+			tags = append(tags, "ipull-scripted")
+		}
+		return opline, b.String(), tags
 	case "iclose":
 		if it := st.iters[toks[1]]; it != nil {
 			it.stop()
@@ -449,7 +709,7 @@ func pgApply(stp **pgState, toks []string) (opline, obs string, tags []string) {
 	case "iterall":
 		kind := toks[1]
 		raw := pgRawOf(toks[len(toks)-1])
-		cur := pgCurTok(raw)
+		cur := pgCurOf(st, kind, raw)
 		opline = fmt.Sprintf("iterall %s %s %s", kind, cur, pgRawTok(raw))
 		var b strings.Builder
 		b.WriteString("items")
@@ -467,7 +727,11 @@ func pgApply(stp **pgState, toks []string) (opline, obs string, tags []string) {
 			}
 		}
 		b.WriteString(" " + end)
-		return opline, b.String(), []string{"iterall", "iterall-" + strings.Fields(end)[0]}
+		tags = []string{"iterall", "iterall-" + strings.Fields(end)[0]}
+		if st.getScript(kind) != nil {
+			tags = append(tags, "iterall-scripted")
+		}
+		return opline, b.String(), tags
 	case "roundtrip":
 		k := pgUnhex(toks[1])
 		c, err := encodeCursor(k)
@@ -504,19 +768,88 @@ type pgGen struct {
 	rng *rand.Rand
 	st  **pgState
 	ctr int
+	// name-length profile of the case: percentages of medium (8-40 symbols) and long (100-400
+	// bytes) names; the rest are short (0-3 symbols). Long names mostly share one of `prefixes`.
+	pMedium, pLong int
+	prefixes       []string
 }
 
-func (g *pgGen) key(kind string) string {
-	n := 1 + g.rng.Intn(3)
-	if g.rng.Intn(12) == 0 {
-		n = 0
+var pgPathAlpha = []string{"a", "b", "e", "k", "s", "t", "x", "0", "1", "7", "-", "_", ".", "~", "/", "/", "A", "Q"}
+
+// setProfile draws the name-length profile of a case.
+func (g *pgGen) setProfile(nitems int) {
+	switch r := g.rng.Intn(10); {
+	case nitems > 100 || r < 5: // short names only
+	case r < 7:
+		g.pMedium, g.pLong = 35, 5
+	case r < 9:
+		g.pMedium, g.pLong = 20, 40
+	default:
+		g.pMedium, g.pLong = 0, 90
 	}
+	for i := 0; i < 1+g.rng.Intn(2); i++ {
+		var b strings.Builder
+		b.WriteString([]string{"", "srv/", "bucket.example.com/", "data/v1/objects/"}[g.rng.Intn(4)])
+		want := 90 + g.rng.Intn(260)
+		for b.Len() < want {
+			b.WriteString(pgPathAlpha[g.rng.Intn(len(pgPathAlpha))])
+		}
+		g.prefixes = append(g.prefixes, b.String())
+	}
+}
+
+func (g *pgGen) sym(kind string) string {
+	if (kind == "tools" || kind == "prompts") && g.rng.Intn(10) == 0 {
+		return pgWildAlpha[g.rng.Intn(len(pgWildAlpha))]
+	}
+	return pgSafeAlpha[g.rng.Intn(len(pgSafeAlpha))]
+}
+
+// key draws a feature name / URI path: short (0-3 symbols), medium (8-40 symbols) or long (100-400
+// bytes: a shared long prefix plus a short or medium tail, its own bytes, or a strict prefix of the
+// shared prefix), according to the case's profile.
+func (g *pgGen) key(kind string) string {
 	var b strings.Builder
-	for i := 0; i < n; i++ {
-		if (kind == "tools" || kind == "prompts") && g.rng.Intn(10) == 0 {
-			b.WriteString(pgWildAlpha[g.rng.Intn(len(pgWildAlpha))])
-		} else {
-			b.WriteString(pgSafeAlpha[g.rng.Intn(len(pgSafeAlpha))])
+	r := g.rng.Intn(100)
+	switch {
+	case r < g.pLong && len(g.prefixes) > 0:
+		pre := g.prefixes[g.rng.Intn(len(g.prefixes))]
+		switch g.rng.Intn(8) {
+		case 0: // the bare prefix, or a cut of it (still long): neighbours in the order
+			cut := len(pre) - g.rng.Intn(12)
+			if cut < 1 {
+				cut = len(pre)
+			}
+			b.WriteString(pre[:cut])
+		case 1: // an unrelated long name
+			n := 100 + g.rng.Intn(300)
+			for b.Len() < n {
+				b.WriteString(g.sym(kind))
+			}
+		case 2: // signed-URL style tail
+			b.WriteString(pre)
+			b.WriteString("?X-Signature=")
+			for i := 0; i < 16+g.rng.Intn(48); i++ {
+				b.WriteString(string("0123456789abcdef"[g.rng.Intn(16)]))
+			}
+		default:
+			b.WriteString(pre)
+			for i := 0; i < g.rng.Intn(4); i++ {
+				b.WriteString(g.sym(kind))
+			}
+		}
+	case r < g.pLong+g.pMedium:
+		n := 8 + g.rng.Intn(33)
+		for i := 0; i < n; i++ {
+			b.WriteString(g.sym(kind))
+		}
+	default:
+		n := 1 + g.rng.Intn(3)
+		if g.rng.Intn(12) == 0 {
+			n = 0
+		}
+		for i := 0; i < n; i++ {
+			b.WriteString(g.sym(kind))
 		}
 	}
 	return pgUID(kind, b.String())
@@ -719,6 +1052,132 @@ func (g *pgGen) iterRun(emit pgEmit, kind string, mutateProb int) {
 	emit("iclose " + kind)
 }
 
+// scriptCursor draws an opaque cursor of a foreign server (valid UTF-8, distinct by construction).
+func (g *pgGen) scriptCursor(kind string, i int) string {
+	tag := fmt.Sprintf("%d", i)
+	switch g.rng.Intn(6) {
+	case 0:
+		return "c" + tag
+	case 1:
+		c, _ := encodeCursor(g.key(kind) + tag) // looks like one of the SDK's own
+		return c
+	case 2:
+		return base64.StdEncoding.EncodeToString([]byte("page:" + tag + ":" + g.val()))
+	case 3:
+		return strings.Repeat("n", 250+g.rng.Intn(200)) + tag
+	case 4:
+		return "\u00e9 \"" + tag + "\" {offset}"
+	default:
+		return tag
+	}
+}
+
+// script draws a foreign server's listing: a chain of 1-6 pages (each possibly empty; for tools
+// possibly holding only tools the client must drop) linked by distinct cursors, plus sometimes a
+// cursor that is answered with an error and a side chain.
+func (g *pgGen) script(kind string) (op string, cursors []string) {
+	r := g.rng
+	np := 1 + r.Intn(6)
+	curs := []string{""}
+	for i := 1; i < np; i++ {
+		curs = append(curs, g.scriptCursor(kind, i))
+	}
+	emptyProb := []int{0, 30, 30, 60}[r.Intn(4)]
+	badProb := []int{0, 30, 60}[r.Intn(3)]
+	var seen []string
+	page := func() string {
+		var its []string
+		n := 1 + r.Intn(4)
+		if r.Intn(100) < emptyProb {
+			n = 0
+		}
+		allBad := kind == "tools" && r.Intn(5) == 0
+		for j := 0; j < n; j++ {
+			k := g.key(kind)
+			if len(seen) > 0 && r.Intn(10) == 0 {
+				k = seen[r.Intn(len(seen))] // a foreign server may repeat itself
+			}
+			seen = append(seen, k)
+			w := hxs(k) + ":" + hxs(g.val())
+			if kind == "tools" && (allBad || r.Intn(100) < badProb) {
+				w += "!"
+			}
+			its = append(its, w)
+		}
+		return strings.Join(its, ",")
+	}
+	toks := []string{"script", kind}
+	for i := 0; i < np; i++ {
+		next := ""
+		if i+1 < np {
+			next = curs[i+1]
+		}
+		toks = append(toks, pgScriptTok(curs[i])+"="+page()+"="+pgScriptTok(next))
+	}
+	if r.Intn(3) == 0 { // a cursor the server refuses
+		c := "gone" + g.val()
+		toks = append(toks, pgScriptTok(c)+"=!")
+		curs = append(curs, c)
+	}
+	if r.Intn(4) == 0 { // a side entry joining the chain (a resumable bookmark)
+		c := "side" + g.val()
+		toks = append(toks, pgScriptTok(c)+"="+page()+"="+pgScriptTok(curs[r.Intn(np)]))
+		curs = append(curs, c)
+	}
+	return strings.Join(toks, " "), curs
+}
+
+// scriptRun: the client against a foreign server: manual paging, the iterator from the start and
+// from cursors in the middle / refused / unknown, a pull-driven iterator with the server changing
+// its listing in between.
+func (g *pgGen) scriptRun(emit pgEmit, kind string) {
+	r := g.rng
+	op, curs := g.script(kind)
+	emit(op)
+	st := *g.st
+	raw := ""
+	for page := 0; page < 12; page++ { // manual paging
+		emit("list " + kind + " " + pgRawTok(raw))
+		raw = st.lastNext[kind]
+		if raw == "" {
+			break
+		}
+	}
+	emit("iterall " + kind + " -")
+	for i := 0; i < r.Intn(3); i++ {
+		c := curs[r.Intn(len(curs))]
+		if r.Intn(5) == 0 {
+			c = "unknown" + g.val()
+		}
+		if r.Intn(2) == 0 {
+			emit("list " + kind + " " + pgRawTok(c))
+		}
+		emit("iterall " + kind + " " + pgRawTok(c))
+	}
+	if r.Intn(2) == 0 {
+		start := ""
+		if r.Intn(4) == 0 {
+			start = curs[r.Intn(len(curs))]
+		}
+		emit("iopen " + kind + " " + pgRawTok(start))
+		for i := 0; i < 20; i++ {
+			obs := emit(fmt.Sprintf("ipull %s %d", kind, 1+r.Intn(3)))
+			if !strings.HasSuffix(obs, " more") && r.Intn(3) != 0 {
+				break
+			}
+			if r.Intn(5) == 0 { // the foreign server's listing changes under the iterator
+				op2, _ := g.script(kind)
+				emit(op2)
+			}
+			if r.Intn(5) == 0 { // so does the SDK server's own registry (not visible while scripted)
+				emit(g.mutation(kind))
+			}
+		}
+		emit("iclose " + kind)
+	}
+	emit("unscript " + kind)
+}
+
 func pgRunCase(out *verifOut, cs string, c int) {
 	rng := verifRng(int64(c))
 	var st *pgState
@@ -744,6 +1203,7 @@ func pgRunCase(out *verifOut, cs string, c int) {
 	if psize == 0 && rng.Intn(3) == 0 {
 		nitems = 1005 // crosses DefaultPageSize
 	}
+	g.setProfile(nitems)
 	focus := g.kind()
 	for nitems > 0 {
 		n := 1 + rng.Intn(4)
@@ -766,7 +1226,9 @@ func pgRunCase(out *verifOut, cs string, c int) {
 		if rng.Intn(3) == 0 {
 			kind = g.kind()
 		}
-		switch r := rng.Intn(100); {
+		switch r := rng.Intn(112); {
+		case r >= 100: // the client against a foreign (scripted) server
+			g.scriptRun(emit, kind)
 		case r < 30:
 			g.traversal(emit, kind, []int{0, 50, 50, 80}[rng.Intn(4)])
 		case r < 40: // static traversal followed by the iterator on the same state
